@@ -9,18 +9,27 @@ META = {
                  'thread senders (instances of C04\'s message-queue interleaving model, so mq_inv is inherited for both queues) may step at every gap; model and an abstract monitor written from the '
                  'property text are tied to the unmodified fibre.c + messageq.c + list.c by a deterministic single-threaded harness that runs scripted interrupt calls in place at every atomic point '
                  '(include-path stdatomic.h shim, ASan)',
-    'level_text': 'Proved (kernel-only, induction over steps - no bound on histories, on the number or placement of interrupts) for EVERY state reachable by ANY interleaving of the main context\'s steps '
-                  '(fibre_scheduler_next / fibre_run / fibre_kill / the canonical handler\'s receive+release, split at each atomic operation with the plain code between them) with the steps of an interrupt '
-                  'handler, a handler nested inside it and a sender on another thread (fibre_run_atomic; claim+stamp+fibre_eventq_send): '
+    'level_text': 'Proved (kernel-only, induction over steps - no bound on histories, on the number or placement of interrupts). '
+                  '(I) For EVERY state reachable by ANY interleaving of the main context\'s steps (fibre_scheduler_next / fibre_run / fibre_kill / the canonical handler\'s receive+release, split at each atomic '
+                  'operation with the plain code between them) with the steps of an interrupt handler, a handler nested inside it and a sender on another thread (fibre_run_atomic; claim+stamp+fibre_eventq_send): '
                   'accepted_never_lost - every fibre with an accepted, not since dispatched or killed request is the payload of a committed unreceived entry of the atomic queue, or on the run queue, or held by '
-                  'the drain loop between receive and make_runnable; queues_not_corrupted - run queue and timer queue duplicate free and disjoint at every gap (C04\'s mq_inv for both message queues, and every '
-                  'context\'s control location consistent with its pc inside the queues); drained_by_pass - when a drain loop receives NULL every entry the call received has its fibre on the run queue, and with '
-                  'handlers run to completion nothing is left (received = claimed); fast path only taken with the atomic queue empty; events_exactly_once_in_order - the stamps the handler read are the recorded '
-                  'payloads of tickets 0..n-1 of its queue in claim order, each once, each sent before received; no_lost_event_wakeup - (no send has returned false, handler not killed) oldest unreceived event '
-                  'committed => a sender is still between that send and the return of its fibre_run_atomic, or the handler is pending, or it is running before its final emptiness check; '
-                  'wakeup_with_isr (C03) - at the final messageq_empty check an outstanding accepted request makes get_next_wakeup compute kernel.now, which is the value returned. '
+                  'the drain loop between receive and make_runnable; queues_not_corrupted - run queue and timer queue duplicate free and disjoint at every gap (C04\'s mq_inv for both message queues, every '
+                  'context\'s control location consistent with its pc inside the queues); drained_by_pass - when a drain loop receives NULL every entry the call received has its fibre on the run queue; '
+                  'events_exactly_once_in_order - the stamps the handler read are the recorded payloads of tickets 0..n-1 of its queue in claim order, each once, each sent before received; '
+                  'no_lost_event_wakeup - oldest unreceived event committed => a sender is still between that send and the return of its fibre_run_atomic, or the handler is pending, or it is running before its final '
+                  'emptiness check - CONDITIONAL on two sticky ghost flags (no fibre_eventq_send has returned false so far, the handler has not been killed so far): after the first refused wake-up or kill of the '
+                  'handler this theorem is silent. '
+                  '(II) ONLY for handlers that run to completion (ReachIsr / ReachR: the main context steps only while no sender is inside a call; arbitrary nesting): drain_leaves_nothing (a NULL receive leaves '
+                  'received = claimed), fast_path_not_taken (the fast path is only taken with the atomic queue empty), wakeup_with_isr (C03: an outstanding accepted request at the final messageq_empty check makes '
+                  'get_next_wakeup compute kernel.now, the value returned), no_lost_event_wakeup_isr, sent_event_keeps_handler_owed (the NON-sticky form: while an event whose send returned true is unprocessed the '
+                  'handler is owed a dispatch or running - also after refused wake-ups and kills), and the refinement model |= monitor: model_refines_monitor (the verdict of Spec/IsrSpec.lean on the model\'s own '
+                  'observations is ok: no event out of order / from nowhere, no oversleeping pass, no starved request) and model_settles (after a quiescent run ending idle: owed = [] and mustget = []), for every '
+                  'history without thread-sender items whose calls name existing fibres (decidable scope ItemOk) that is not cut for lack of fuel. (_quiet variants state the same under the explicit hypothesis '
+                  '"no sender inside a call at that instant" for arbitrary interleavings.) '
+                  'Observation O3 (real behaviour, outside the property\'s interrupt semantics): a free-running sender stalled between its claim and its send hides later completed requests from the scheduler\'s '
+                  'final check, so fibre_scheduler_next may return a late wake-up although a request completed; the monitor\'s `disturbed` flag suspends its oversleep/starvation rules while a thread sender is in flight. '
                   'The executable runner (interrupt scripts at numbered gaps, nesting, thread senders, quiescent run) is proved to pass only through reachable states, and without thread senders only through '
-                  'states in which no sender is inside a call (handlers run to completion).',
+                  'states in which no sender is inside a call.',
     'level_note': 'NOT proved, only checked on every run by the correspondence (sampling + small exhaustive scopes, never called proof): the liveness bound (def dispatch_within_runq_passes; only the FIFO shape lemma '
                   'dispatch_within_runq_passes_partial is proved) - the monitor\'s `starved` verdict (a request outstanding at the beginning of nf complete undisturbed passes) checks it on the real code; '
                   'model_refines_monitor / model_settles PROVE that the abstract monitor never complains about the MODEL (verdict ok: no event out of order, no oversleeping pass, no starved request; after a quiescent run '
@@ -42,7 +51,7 @@ REQUIRED = ['Librfn.C06.' + t for t in (
     'accepted_never_lost', 'held_entry_joins_runq', 'history_accepted_never_lost', 'queues_not_corrupted', 'senders_leave_scheduler_alone',
     'queues_satisfy_mq_inv', 'shifts_defined', 'drained_by_pass', 'drain_leaves_nothing', 'drain_leaves_nothing_quiet', 'fast_path_not_taken',
     'events_exactly_once_in_order', 'event_carries_its_senders_stamp', 'no_lost_event_wakeup', 'no_lost_event_wakeup_isr',
-    'wakeup_with_isr', 'wake_value_is_returned', 'wakeup_with_isr_quiet', 'model_refines_monitor', 'model_settles', 'model_settled_bool', 'history_reachable', 'history_interrupt_only', 'interrupts_run_to_completion')]
+    'wakeup_with_isr', 'wake_value_is_returned', 'wakeup_with_isr_quiet', 'sent_event_keeps_handler_owed', 'model_refines_monitor', 'model_settles', 'model_settled_bool', 'history_reachable', 'history_interrupt_only', 'interrupts_run_to_completion')]
 
 NFMAX = 8
 
@@ -339,7 +348,7 @@ def tally(stats, out):
                 elif r == 'c':
                     stats['event_queue_full'] += 1
                 n = int(t.split('/')[1])
-                if (t[1] == 'A' and n > 4) or (t[1] == 'E' and r == '1' and n > 8):
+                if (t[1] == 'A' and r == '1' and n > 5) or (t[1] == 'E' and r == '1' and n > 10):
                     stats['cas_retries'] += 1
             elif t.startswith('unfired='):
                 stats['unfired'] += int(t[8:])
@@ -529,7 +538,7 @@ def placements(ctx, base, calls, nmax, nested, slack=2):
             fresh[0] = 1000
             out.append(build([(i, g, mk(c), [])]))
             if nested:
-                depth = 4 if c[0] == 'A' else 8
+                depth = 5 if c[0] == 'A' else 10       # atomic operations of the call: claim = load, CAS, load, CAS; send = fetch_or
                 for k in range(depth + 1):
                     for p in 'ab':
                         for c2 in calls:
